@@ -79,7 +79,7 @@ def gen_setup(rng, nmax=40, allow_metric=True):
             p = [float(rng.randint(int(lo[d]), int(hi[d]) + 1)) for d in range(dim)]
         targets.append(p)
     return {'coords': c.tolist(), 'values': v.tolist(), 'model': model, 'metric': metric, 'mkw': mkw, 'coords_dtype': (rng.choice([None, None, 'int64', 'uint16']) if (not mkw and np.all(c == np.round(c)) and c.min() >= 0 and c.max() < 30000) else None), 'ok_coords_as': rng.choice(['variogram', 'metricspace']) if mkw else 'variogram', 'vkw': vk, 'min_points': minp, 'max_points': maxp,
-            'targets': targets, 'solver': rng.choice(['inv', 'numpy', 'scipy']), 'sparse': metric == 'euclidean' and rng.random() < 0.4,
+            'targets': targets, 'solver': rng.choice(['inv', 'numpy', 'scipy']), 'sparse': metric == 'euclidean' and rng.random() < (0.7 if model in ('spherical', 'cubic') else 0.3),
             'tags': {'points': kind, 'dim': dim, 'n': n, 'model': model, 'how': how, 'nugget': nugget, 'duplicates': dup}}
 
 
@@ -88,11 +88,14 @@ def make_variogram(setup, values=None):
     v = np.array(setup['values'] if values is None else values, float)
     if setup.get('mkw'):
         c = MetricSpace(c, setup['metric'], dist_metric_kwargs=dict(setup['mkw']))
+    if setup.get('values_dtype') and values is None and np.all(v == np.round(v)):
+        v = v.astype(setup['values_dtype'])          # integer-typed observations
     return Variogram(c, v, model=setup['model'], dist_func=setup['metric'], n_lags=8, **setup['vkw'])
 
 
 def target_space(setup, T, max_dist=None):
-    return MetricSpace(np.array(T, float).copy(), setup['metric'], max_dist, dist_metric_kwargs=dict(setup.get('mkw') or {}))
+    T = T if (isinstance(T, np.ndarray) and T.dtype == float) else np.array(T, float)          # an ndarray is handed over as it is: the space has to copy it itself
+    return MetricSpace(T, setup['metric'], max_dist, dist_metric_kwargs=dict(setup.get('mkw') or {}))
 
 
 def make_ok(setup, V=None, **over):
@@ -161,9 +164,15 @@ def brute_force(V, setup, target, coords=None, values=None):
     b = np.concatenate((g0, [1.0]))
     try:
         # the explicit inverse (solver='inv') loses about cond^2 * eps, the LU solvers cond * eps
-        if np.linalg.cond(A) > (1e7 if setup.get('solver') == 'inv' else 1e9):
+        # conditioning is judged on the equilibrated system (semivariances divided by their largest value): the unit of the
+        # observations must not decide whether a target is examined
+        sc_ = float(np.max(np.abs(G))) if n > 0 and np.max(np.abs(G)) > 0 else 1.0
+        As = A.copy()
+        As[:n, :n] = G / sc_
+        if np.linalg.cond(As) > (1e7 if setup.get('solver') == 'inv' else 1e9):
             return None, None, 'illcond'
-        lam = np.linalg.solve(A, b)
+        lam = np.linalg.solve(As, np.concatenate((g0 / sc_, [1.0])))
+        lam[n] *= sc_
     except Exception:
         return None, None, 'illcond'
     return float(lam[:n].dot(v[W])), float(g0.dot(lam[:n]) + lam[n]), 'ok'
